@@ -280,7 +280,7 @@ spec fn push_frame(ts0: Seq<TypeNode>, ts1: Seq<TypeNode>, ty: Type) -> bool {
     &&& rep0(ts1, ts0.len() as int) == ts0.len()
 }
 /// type of (the class of) an id
-spec fn ty_of(ts: Seq<TypeNode>, a: TyID) -> Type { ts[rep0(ts, a.0 as int)].ty }
+spec fn ty_of(ts: Seq<TypeNode>, a: TyID) -> Type { cty(ts, a.0 as int) }
 
 
 /// the observable content of the graph: the type of (the class of) every id
@@ -324,10 +324,11 @@ proof fn lemma_unchanged(a: Seq<TypeNode>, b: Seq<TypeNode>)
     ensures
         same_graph(a, b), tview(b) == tview(a), ids_closed(a) ==> ids_closed(b), sizes_inv(a) ==> sizes_inv(b),
         forall|o: Seq<TypeNode>| #[trigger] same_graph(o, a) ==> same_graph(o, b),
-        merges_from(a, b), cons_from(a, b),
+        merges_from(a, b), cons_from(a, b), heads_from(a, b),
 {
     assert(same_graph(a, b));
     lemma_cons_same_graph(a, b);
+    lemma_heads_same_types(a, b);
     assert(merges_only(a, b)) by { assert forall|i: int, j: int| 0 <= i < a.len() && 0 <= j < a.len() && rep0(a, i) == rep0(a, j) implies #[trigger] rep0(b, i) == #[trigger] rep0(b, j) by { assert(rep0(b, i) == rep0(a, i)); assert(rep0(b, j) == rep0(a, j)); } }
     lemma_merges_from(a, b);
     lemma_same_graph(a, b);
@@ -631,6 +632,56 @@ spec fn same_partition_and_types(a: Seq<TypeNode>, b: Seq<TypeNode>) -> bool {
 }
 /// deferred constraints (key set) of the class of `i`
 spec fn cons_of(ts: Seq<TypeNode>, i: int) -> Set<Constraint> { ts[rep0(ts, i)].constraints@.dom() }
+
+// ---- a known type keeps its shape: the third component of the frame ---------------------------------
+/// the constructor of a type
+spec fn head(t: Type) -> int {
+    match t {
+        Type::Unknown => 0, Type::Ty => 1, Type::Invalid => 2, Type::Void => 3, Type::Nil => 4, Type::Int => 5,
+        Type::Float => 6, Type::Bool => 7, Type::Str => 8, Type::Tuple(..) => 9, Type::List(..) => 10,
+        Type::Function(..) => 11, Type::Blob(..) => 12, Type::ExternBlob(..) => 13, Type::Enum(..) => 14,
+    }
+}
+/// same constructor, and the same length for tuples
+spec fn shape_eq(x: Type, y: Type) -> bool {
+    head(x) == head(y) && (x is Tuple ==> x->Tuple_0.len() == y->Tuple_0.len())
+}
+/// type of the class of node `i`
+spec fn cty(ts: Seq<TypeNode>, i: int) -> Type { ts[rep0(ts, i)].ty }
+/// whatever was known stays known, with the same shape (Unknown may become anything)
+spec fn heads_kept(a: Seq<TypeNode>, b: Seq<TypeNode>) -> bool {
+    &&& a.len() <= b.len()
+    &&& forall|i: int| 0 <= i < a.len() && !(#[trigger] cty(a, i) is Unknown) ==> shape_eq(cty(a, i), cty(b, i))
+}
+spec fn heads_from(a: Seq<TypeNode>, b: Seq<TypeNode>) -> bool {
+    forall|o: Seq<TypeNode>| #[trigger] heads_kept(o, a) ==> heads_kept(o, b)
+}
+proof fn lemma_heads_refl(a: Seq<TypeNode>) ensures heads_kept(a, a) {}
+proof fn lemma_heads_from(a: Seq<TypeNode>, b: Seq<TypeNode>)
+    requires heads_kept(a, b),
+    ensures heads_from(a, b),
+{
+    assert forall|o: Seq<TypeNode>| #[trigger] heads_kept(o, a) implies heads_kept(o, b) by {
+        assert forall|i: int| 0 <= i < o.len() && !(#[trigger] cty(o, i) is Unknown) implies shape_eq(cty(o, i), cty(b, i)) by {
+            assert(shape_eq(cty(o, i), cty(a, i)));
+            assert(!(cty(a, i) is Unknown));
+        }
+    }
+}
+/// a step that keeps partition and node types keeps every class type
+proof fn lemma_heads_same_types(a: Seq<TypeNode>, b: Seq<TypeNode>)
+    requires same_partition_and_types(a, b), wf_forest(a),
+    ensures heads_from(a, b),
+{
+    assert(heads_kept(a, b)) by {
+        assert forall|i: int| 0 <= i < a.len() && !(#[trigger] cty(a, i) is Unknown) implies shape_eq(cty(a, i), cty(b, i)) by {
+            assert(rep0(b, i) == rep0(a, i));
+            lemma_rep0_props(a, i);
+            assert(b[rep0(a, i)].ty == a[rep0(a, i)].ty);
+        }
+    }
+    lemma_heads_from(a, b);
+}
 
 
 // ---- structural rules (C04, C05), deep: through every expression, branch, block and closure ----------
@@ -964,6 +1015,7 @@ impl TypeChecker {
     /// the frame every checker function obeys: the graph only grows, the variable table is fixed
     spec fn grows(&self, old: &TypeChecker) -> bool {
         self.types@.len() >= old.types@.len() && self.variables == old.variables && merges_from(old.types@, self.types@) && cons_from(old.types@, self.types@)
+            && heads_from(old.types@, self.types@)
     }
 
 //@ fn sylt-compiler/src/typechecker.rs push_type
@@ -982,11 +1034,12 @@ impl TypeChecker {
             push_frame(old(self).types@, final(self).types@, ty), //# C02 push_type.appends_one_singleton_class_and_touches_nothing_else
             merges_from(old(self).types@, final(self).types@), //# C02 push_type.classes_only_merge
             cons_from(old(self).types@, final(self).types@), //# C02 push_type.no_constraint_dropped
+            heads_from(old(self).types@, final(self).types@), //# C02,C03 push_type.known_types_keep_their_shape
             final(self).variables == old(self).variables, //# C07 push_type.spec.aux4
 //@   endspec
 //@   ghost after
 //@|         });
-            proof { lemma_push(old(self).types@, self.types@); reveal(push_frame); lemma_push_merges(old(self).types@, self.types@); lemma_push_cons(old(self).types@, self.types@); }
+            proof { lemma_push(old(self).types@, self.types@); reveal(push_frame); lemma_push_merges(old(self).types@, self.types@); lemma_push_cons(old(self).types@, self.types@); lemma_push_heads(old(self).types@, self.types@); }
 //@   endghost
 //@ end
 
@@ -1013,6 +1066,7 @@ impl TypeChecker {
             tview(final(self).types@) == tview(old(self).types@), //# C02 find.view_unchanged
             merges_from(old(self).types@, final(self).types@), //# C02 find.classes_only_merge
             cons_from(old(self).types@, final(self).types@), //# C02 find.no_constraint_dropped
+            heads_from(old(self).types@, final(self).types@), //# C02,C03 find.known_types_keep_their_shape
             final(self).variables == old(self).variables, //# C02 find.frame_variables
             (res.0 as int) < final(self).types.len(), //# C07 find.result_in_range
             final(self).types@[res.0 as int].parent is None, //# C02 find.result_is_root
@@ -1090,6 +1144,7 @@ impl TypeChecker {
             tview(final(self).types@) == tview(old(self).types@), //# C02 find_node.view_unchanged
             merges_from(old(self).types@, final(self).types@), //# C02 find_node.classes_only_merge
             cons_from(old(self).types@, final(self).types@), //# C02 find_node.no_constraint_dropped
+            heads_from(old(self).types@, final(self).types@), //# C02,C03 find_node.known_types_keep_their_shape
             final(self).variables == old(self).variables, //# C02 find_node.frame_variables
             *r == final(self).types@[rep0(old(self).types@, a.0 as int)], //# C02 find_node.returns_root_node
             r.ty == ty_of(old(self).types@, a), //# C02,C07 find_node.spec.aux6
@@ -1117,6 +1172,7 @@ impl TypeChecker {
             tview(final(self).types@) == tview(old(self).types@), //# C02 find_type.view_unchanged
             merges_from(old(self).types@, final(self).types@), //# C02 find_type.classes_only_merge
             cons_from(old(self).types@, final(self).types@), //# C02 find_type.no_constraint_dropped
+            heads_from(old(self).types@, final(self).types@), //# C02,C03 find_type.known_types_keep_their_shape
             final(self).variables == old(self).variables, //# C02 find_type.frame_variables
             r == ty_of(old(self).types@, a), //# C02 find_type.returns_class_type
             r == tview(old(self).types@)[a.0 as int], //# C02,C07 find_type.spec.aux6
@@ -1145,6 +1201,7 @@ impl TypeChecker {
             tview(final(self).types@) == tview(old(self).types@), //# C02 is_void.view_unchanged
             merges_from(old(self).types@, final(self).types@), //# C02 is_void.classes_only_merge
             cons_from(old(self).types@, final(self).types@), //# C02 is_void.no_constraint_dropped
+            heads_from(old(self).types@, final(self).types@), //# C02,C03 is_void.known_types_keep_their_shape
             final(self).variables == old(self).variables, //# C02 is_void.frame_variables
             r == (ty_of(old(self).types@, a) is Void), //# C03 is_void.exact
 //@   endspec
@@ -1452,6 +1509,7 @@ impl TypeChecker {
         requires
             old(self).inv(), //# C02 union.pre.inv
             old(self).valid(a), old(self).valid(b), //# C07 union.pre.ids_in_range
+            shape_eq(ty_of(old(self).types@, a), ty_of(old(self).types@, b)), //# C02,C03 union.pre.the_two_classes_have_types_of_one_shape
         ensures
             final(self).inv(), //# C02 union.keeps_invariant
             final(self).types.len() == old(self).types.len(), //# C07 union.spec.aux1
@@ -1464,6 +1522,7 @@ impl TypeChecker {
                 ==> #[trigger] cons_of(final(self).types@, i) == cons_of(old(self).types@, i), //# C02,C03 union.other_classes_keep_constraints
             merges_from(old(self).types@, final(self).types@), //# C02 union.classes_only_merge
             cons_from(old(self).types@, final(self).types@), //# C02,C03 union.no_constraint_dropped
+            heads_from(old(self).types@, final(self).types@), //# C02,C03 union.known_types_keep_their_shape
             rep0(final(self).types@, a.0 as int) == rep0(final(self).types@, b.0 as int), //# C02,C03 union.the_two_ids_end_up_in_one_class
             final(self).variables == old(self).variables, //# C07 union.spec.aux2
 //@   endspec
@@ -1893,6 +1952,7 @@ impl TypeChecker {
             final(r).parent is None && final(r).size == r.size && sizes_inv(old(self).types@) ==> sizes_inv(final(self).types@), //# C02 find_node_mut.sizes_kept_if_size_untouched
             final(r).parent is None ==> merges_from(old(self).types@, final(self).types@), //# C02 find_node_mut.classes_only_merge
             final(r).parent is None && final(r).constraints == r.constraints ==> cons_from(old(self).types@, final(self).types@), //# C02 find_node_mut.no_constraint_dropped_if_constraints_untouched
+            final(r).parent is None && (r.ty is Unknown || shape_eq(r.ty, final(r).ty)) ==> heads_from(old(self).types@, final(self).types@), //# C02,C03 find_node_mut.known_types_keep_their_shape_if_the_write_does
             final(self).variables == old(self).variables, //# C07 find_node_mut.spec.aux3
 //@   endspec
 //@   ghost entry
@@ -1910,7 +1970,8 @@ impl TypeChecker {
                 && (forall|i: int| 0 <= i < ts0.len() ==> #[trigger] rep0(mid.update(ta as int, n), i) == rep0(ts0, i))
                 && (n.size == mid[ta as int].size && sizes_inv(ts0) ==> sizes_inv(mid.update(ta as int, n)))
                 && merges_from(ts0, mid.update(ta as int, n))
-                && (n.constraints == mid[ta as int].constraints ==> cons_from(ts0, mid.update(ta as int, n))) by {
+                && (n.constraints == mid[ta as int].constraints ==> cons_from(ts0, mid.update(ta as int, n)))
+                && (mid[ta as int].ty is Unknown || shape_eq(mid[ta as int].ty, n.ty) ==> heads_from(ts0, mid.update(ta as int, n))) by {
                 let upd = mid.update(ta as int, n);
                 lemma_parents_same(mid, upd);
                 if n.size == mid[ta as int].size && sizes_inv(ts0) { lemma_sum_same(mid, upd, mid.len() as int); }
@@ -1930,6 +1991,16 @@ impl TypeChecker {
                         }
                     }
                     lemma_cons_from(ts0, upd);
+                }
+                if mid[ta as int].ty is Unknown || shape_eq(mid[ta as int].ty, n.ty) {
+                    assert(heads_kept(ts0, upd)) by {
+                        assert forall|i: int| 0 <= i < ts0.len() && !(#[trigger] cty(ts0, i) is Unknown) implies shape_eq(cty(ts0, i), cty(upd, i)) by {
+                            lemma_rep0_props(ts0, i);
+                            assert(rep0(upd, i) == rep0(mid, i)); assert(rep0(mid, i) == rep0(ts0, i));
+                            assert(mid[rep0(ts0, i)].ty == ts0[rep0(ts0, i)].ty);
+                        }
+                    }
+                    lemma_heads_from(ts0, upd);
                 }
                 assert forall|i: int| 0 <= i < ts0.len() implies #[trigger] rep0(upd, i) == rep0(ts0, i) by {
                     assert(rep0(upd, i) == rep0(mid, i));
@@ -1984,7 +2055,7 @@ impl TypeChecker {
 //@   loop 1 binder it
                     invariant
                         xs1.len() == ys1.len(), it.seq().len() == xs1.len(), //# C03,C05 sub_unify.loop1.tuple_lengths_match
-                        self.inv2(), self.grows(old(self)), self.types@.len() >= n1, merges_only(ts1, self.types@), //# C02,C07 sub_unify.loop1.aux1
+                        self.inv2(), self.grows(old(self)), self.types@.len() >= n1, merges_only(ts1, self.types@), heads_kept(ts1, self.types@), //# C02,C07 sub_unify.loop1.aux1
                         vstd::std_specs::btree::key_obeys_cmp_spec::<(TyID, TyID)>(), //# C02,C07 sub_unify.loop1.aux2
                         forall|i: int| 0 <= i < xs1.len() ==> *(#[trigger] it.seq()[i]).0 == xs1[i] && *it.seq()[i].1 == ys1[i], //# - sub_unify.loop1.aux3
                         forall|k: int| 0 <= k < xs1.len() ==> (#[trigger] xs1[k]).0 < n1 && (#[trigger] ys1[k]).0 < n1, //# C07 sub_unify.loop1.aux4
@@ -1995,7 +2066,7 @@ impl TypeChecker {
 //@   loop 2 binder it
                     invariant
                         xs2.len() == ys2.len(), it.seq().len() == xs2.len(), //# C03 sub_unify.loop2.arities_match
-                        self.inv2(), self.grows(old(self)), self.types@.len() >= n2, merges_only(ts1, self.types@), //# C02,C07 sub_unify.loop2.aux1
+                        self.inv2(), self.grows(old(self)), self.types@.len() >= n2, merges_only(ts1, self.types@), heads_kept(ts1, self.types@), //# C02,C07 sub_unify.loop2.aux1
                         vstd::std_specs::btree::key_obeys_cmp_spec::<(TyID, TyID)>(), //# C02,C07 sub_unify.loop2.aux2
                         forall|i: int| 0 <= i < xs2.len() ==> *(#[trigger] it.seq()[i]).0 == xs2[i] && *it.seq()[i].1 == ys2[i], //# - sub_unify.loop2.aux3
                         forall|k: int| 0 <= k < xs2.len() ==> (#[trigger] xs2[k]).0 < n2 && (#[trigger] ys2[k]).0 < n2, //# C07 sub_unify.loop2.aux4
@@ -2005,7 +2076,7 @@ impl TypeChecker {
 //@   endghost
 //@   loop 4 binder it
                     invariant
-                        self.inv2(), self.grows(old(self)), self.types@.len() >= n4, merges_only(ts1, self.types@), //# C02,C07 sub_unify.loop4.aux1
+                        self.inv2(), self.grows(old(self)), self.types@.len() >= n4, merges_only(ts1, self.types@), heads_kept(ts1, self.types@), //# C02,C07 sub_unify.loop4.aux1
                         vstd::std_specs::btree::key_obeys_cmp_spec::<(TyID, TyID)>(), //# C02,C07 sub_unify.loop4.aux2
                         vstd::std_specs::btree::key_obeys_cmp_spec::<String>(), //# C02,C07 sub_unify.loop4.aux3
                         fields_in_range(a_fields, n4 as int), fields_in_range(b_fields, n4 as int), //# C02,C07 sub_unify.loop4.aux4
@@ -2016,7 +2087,7 @@ impl TypeChecker {
 //@   endghost
 //@   loop 5 binder it
                     invariant
-                        self.inv2(), self.grows(old(self)), self.types@.len() >= n5, merges_only(ts1, self.types@), //# C02,C07 sub_unify.loop5.aux1
+                        self.inv2(), self.grows(old(self)), self.types@.len() >= n5, merges_only(ts1, self.types@), heads_kept(ts1, self.types@), //# C02,C07 sub_unify.loop5.aux1
                         vstd::std_specs::btree::key_obeys_cmp_spec::<(TyID, TyID)>(), //# C02,C07 sub_unify.loop5.aux2
                         it.seq().len() <= xs5.len(), it.seq().len() <= ys5.len(), //# - sub_unify.loop5.aux3
                         forall|i: int| 0 <= i < it.seq().len() ==> *(#[trigger] it.seq()[i]).0 == xs5[i] && *it.seq()[i].1 == ys5[i], //# - sub_unify.loop5.aux4
@@ -2028,7 +2099,7 @@ impl TypeChecker {
 //@   endghost
 //@   loop 7 binder it
                     invariant
-                        self.inv2(), self.grows(old(self)), self.types@.len() >= n7, merges_only(ts1, self.types@), //# C02,C07 sub_unify.loop7.aux1
+                        self.inv2(), self.grows(old(self)), self.types@.len() >= n7, merges_only(ts1, self.types@), heads_kept(ts1, self.types@), //# C02,C07 sub_unify.loop7.aux1
                         vstd::std_specs::btree::key_obeys_cmp_spec::<(TyID, TyID)>(), //# C02,C07 sub_unify.loop7.aux2
                         vstd::std_specs::btree::key_obeys_cmp_spec::<String>(), //# C02,C07 sub_unify.loop7.aux3
                         fields_in_range(a_variants, n7 as int), fields_in_range(b_variants, n7 as int), //# C02,C07 sub_unify.loop7.aux4
@@ -2038,7 +2109,8 @@ impl TypeChecker {
 //@| if a == b || seen.contains(&(a, b)) {
         let ghost ts1 = self.types@;
         proof {
-            lemma_merges_refl(ts1);
+            lemma_merges_refl(ts1); lemma_heads_refl(ts1);
+            assert(ty_of(ts1, a) == cty(ts1, a.0 as int)); assert(ty_of(ts1, b) == cty(ts1, b.0 as int));
             lemma_rep0_props(ts1, a.0 as int); lemma_rep0_props(ts1, b.0 as int);
             assert(rep0(ts1, a0.0 as int) == a.0 as int); assert(rep0(ts1, b0.0 as int) == b.0 as int);
         }
@@ -2247,7 +2319,7 @@ proof fn lemma_union_noop(ts0: Seq<TypeNode>, ts2: Seq<TypeNode>, a0: int, b0: i
         rep0(ts0, a0) == rep0(ts0, b0),
     ensures
         ids_closed(ts2), sizes_inv(ts0) ==> sizes_inv(ts2),
-        merges_from(ts0, ts2), rep0(ts2, a0) == rep0(ts2, b0), cons_from(ts0, ts2),
+        merges_from(ts0, ts2), rep0(ts2, a0) == rep0(ts2, b0), cons_from(ts0, ts2), heads_from(ts0, ts2),
         merged_into(ts0, ts2, rep0(ts0, a0), rep0(ts0, b0), rep0(ts0, a0)),
         forall|i: int| 0 <= i < ts0.len() ==> #[trigger] cons_of(ts2, i) == cons_of(ts0, i),
         forall|i: int| 0 <= i < ts0.len() ==> (#[trigger] ts2[i]).ty == ts0[i].ty,
@@ -2256,6 +2328,7 @@ proof fn lemma_union_noop(ts0: Seq<TypeNode>, ts2: Seq<TypeNode>, a0: int, b0: i
     lemma_same_roots(ts0, ts2);
     lemma_unchanged_from_same_graph(ts0, ts2);
     lemma_cons_same_graph(ts0, ts2);
+    lemma_heads_same_types(ts0, ts2);
     assert(rep0(ts2, a0) == rep0(ts0, a0)); assert(rep0(ts2, b0) == rep0(ts0, b0));
     assert forall|i: int| 0 <= i < ts0.len() implies #[trigger] cons_of(ts2, i) == cons_of(ts0, i) by {
         lemma_rep0_props(ts0, i);
@@ -2310,6 +2383,7 @@ proof fn lemma_union_final(ts0: Seq<TypeNode>, ts2: Seq<TypeNode>, ts3: Seq<Type
     ensures
         wf_forest(ts4), ids_closed(ts4), sizes_inv(ts4),
         merges_from(ts0, ts4), rep0(ts4, a0) == rep0(ts4, b0), cons_from(ts0, ts4),
+        shape_eq(cty(ts0, a0), cty(ts0, b0)) ==> heads_from(ts0, ts4),
         forall|i: int| 0 <= i < ts0.len() ==> (#[trigger] ts4[i]).ty == ts0[i].ty,
         merged_into(ts0, ts4, rep0(ts0, a0), rep0(ts0, b0), w as int),
         forall|c: Constraint| #[trigger] cons_of(ts4, a0).contains(c) <==> cons_of(ts0, a0).contains(c) || cons_of(ts0, b0).contains(c),
@@ -2368,6 +2442,22 @@ proof fn lemma_union_final(ts0: Seq<TypeNode>, ts2: Seq<TypeNode>, ts3: Seq<Type
         }
     }
     lemma_cons_from(ts0, ts4);
+    if shape_eq(cty(ts0, a0), cty(ts0, b0)) {
+        assert(heads_kept(ts0, ts4)) by {
+            assert forall|i: int| 0 <= i < ts0.len() && !(#[trigger] cty(ts0, i) is Unknown) implies shape_eq(cty(ts0, i), cty(ts4, i)) by {
+                lemma_rep0_props(ts0, i);
+                if rep0(ts0, i) == rep0(ts0, a0) || rep0(ts0, i) == rep0(ts0, b0) {
+                    assert(rep0(ts4, i) == w as int);
+                    assert(ts4[w as int].ty == ts0[w as int].ty);
+                    assert(w as int == rep0(ts0, a0) || w as int == rep0(ts0, b0));
+                } else {
+                    assert(rep0(ts4, i) == rep0(ts0, i));
+                    assert(ts4[rep0(ts0, i)].ty == ts0[rep0(ts0, i)].ty);
+                }
+            }
+        }
+        lemma_heads_from(ts0, ts4);
+    }
 }
 
 proof fn lemma_push(ts: Seq<TypeNode>, ts2: Seq<TypeNode>)
@@ -2410,6 +2500,20 @@ proof fn lemma_push_merges(ts: Seq<TypeNode>, ts2: Seq<TypeNode>)
         }
     }
     lemma_merges_from(ts, ts2);
+}
+proof fn lemma_push_heads(ts: Seq<TypeNode>, ts2: Seq<TypeNode>)
+    requires wf_forest(ts), ts2.len() == ts.len() + 1, forall|i: int| 0 <= i < ts.len() ==> ts2[i] == ts[i],
+        forall|i: int| 0 <= i < ts.len() ==> rep0(ts2, i) == rep0(ts, i),
+    ensures heads_from(ts, ts2),
+{
+    assert(heads_kept(ts, ts2)) by {
+        assert forall|i: int| 0 <= i < ts.len() && !(#[trigger] cty(ts, i) is Unknown) implies shape_eq(cty(ts, i), cty(ts2, i)) by {
+            lemma_rep0_props(ts, i);
+            assert(rep0(ts2, i) == rep0(ts, i));
+            assert(ts2[rep0(ts, i)] == ts[rep0(ts, i)]);
+        }
+    }
+    lemma_heads_from(ts, ts2);
 }
 proof fn lemma_push_cons(ts: Seq<TypeNode>, ts2: Seq<TypeNode>)
     requires wf_forest(ts), ts2.len() == ts.len() + 1, forall|i: int| 0 <= i < ts.len() ==> ts2[i] == ts[i],
